@@ -108,6 +108,19 @@ class MemberDispatcher:
         self.audit(ev, live)
 
 
+def _illposed_refusal(disp, exc):
+    """the member under construction belongs to a component that is not well-posed (its chain can close before a later element)
+    and the library refused it with a RuntimeError"""
+    if not isinstance(exc, RuntimeError) or disp.component is None or disp.audit is None:
+        return False
+    from . import wellposed
+
+    try:
+        return not wellposed.analyse(disp.ast_sys.mols[disp.component])[0]
+    except Exception:
+        return False
+
+
 def scale_masses(text, sysw, scale):
     """multiply every absolute mass specifier (and the system mass argument) by `scale`; percentages stay"""
     import re
@@ -389,6 +402,13 @@ def run_system(text, ops_seed, sched_kwargs, n_generators=1, faults=None, props=
                         t["dead"] = "embed_fault"
                         new_gen()
                         continue
+                    if _illposed_refusal(disp, exc):
+                        # a component whose chain may close before a later element (chain stopper among the units): the library
+                        # refuses such a member with a RuntimeError; that ends this generator, nothing was handed out
+                        stats["illposed_member_refused"] = stats.get("illposed_member_refused", 0) + 1
+                        t["dead"] = "illposed_refusal"
+                        new_gen()
+                        continue
                     feats = ["exc=" + type(exc).__name__]
                     if "updating stopped" in str(exc):
                         feats.append("msg=updating stopped")
@@ -463,12 +483,16 @@ def run_system(text, ops_seed, sched_kwargs, n_generators=1, faults=None, props=
                     raise
                 except Exception as exc:
                     feats = ["exc=" + type(exc).__name__]
-                    if "updating stopped" in str(exc):
+                    if _illposed_refusal(disp, exc):
+                        stats["illposed_member_refused"] = stats.get("illposed_member_refused", 0) + 1
+                        feats = None
+                    elif "updating stopped" in str(exc):
                         feats.append("msg=updating stopped")
                     fam = [e["text"].split("(")[0].strip("|") for e in world.log if e["k"] == "draw_fail"]
-                    if fam:
+                    if fam and feats is not None:
                         feats += ["draw_fail", "family=" + fam[-1]]
-                    viols.append({"property": "C13", "invariant": "member_generation_raised", "msg": f"System.generate raised {exc!r}", "features": feats})
+                    if feats is not None:
+                        viols.append({"property": "C13", "invariant": "member_generation_raised", "msg": f"System.generate raised {exc!r}", "features": feats})
             # other systems built in the same process from the same component texts: each has the mass and the generability
             # its own specifiers give it, whatever was built before
             if sibling_systems and expect_generable:
